@@ -1,2 +1,148 @@
-(* Spec/AlignSpec.v — specification-level definitions. *)
+(* Spec/AlignSpec.v — what the alignment properties C08-C10 talk about:
+   how much of the two sequences a list of steps consumes, the documented score
+   of a list of steps, the domain ("the matrix covers the sequences",
+   "non-positive gap scores"), and the textbook edit distance. *)
 From Bio Require Import Base.
+From Bio.Model Require Import Align.
+Open Scope Z_scope.
+
+(* (number of characters of a, of b) the steps take. *)
+Fixpoint consumes (al : list step) : nat * nat :=
+  match al with
+  | [] => (O, O)
+  | s :: r =>
+    let '(i, j) := consumes r in
+    match s with
+    | SMatch => (S i, S j)
+    | SDel => (S i, j)
+    | SIns => (i, S j)
+    | SNone => (i, j)
+    end
+  end.
+
+(* The documented scoring, reading the steps from the start of a and b:
+   pair score per match step; per-character gap score per gap step (Deletion:
+   m[a_i, Gap], Insertion: m[Gap, b_j]); plus the gap-open score m[Gap, Gap]
+   once per maximal run of equal consecutive gap steps, i.e. on every gap step
+   whose predecessor [prev] is not the same kind of gap.  [Err]: the steps run
+   past the end of a sequence or contain a value that is not a step; [Panic]:
+   a pair is missing from the matrix. *)
+Fixpoint score_from (g : scorer) (prev : step) (a b : bytes) (al : list step) : outcome Z :=
+  match al with
+  | [] => Ok 0
+  | SMatch :: r =>
+    match a, b with
+    | x :: a', y :: b' =>
+      obind (g x y) (fun s => obind (score_from g SMatch a' b' r) (fun t => Ok (s + t)))
+    | _, _ => Err
+    end
+  | SDel :: r =>
+    match a with
+    | x :: a' =>
+      obind (g x Gap) (fun s =>
+      obind (add_open g (negb (is_del prev)) s) (fun s' =>
+      obind (score_from g SDel a' b r) (fun t => Ok (s' + t))))
+    | [] => Err
+    end
+  | SIns :: r =>
+    match b with
+    | y :: b' =>
+      obind (g Gap y) (fun s =>
+      obind (add_open g (negb (is_ins prev)) s) (fun s' =>
+      obind (score_from g SIns a b' r) (fun t => Ok (s' + t))))
+    | [] => Err
+    end
+  | SNone :: _ => Err
+  end.
+
+Definition score_g (g : scorer) (a b : bytes) (al : list step) : outcome Z :=
+  score_from g SNone a b al.
+
+Definition score (m : matrix) (a b : bytes) (al : list step) : outcome Z :=
+  score_g (get m) a b al.
+
+(* The same, but gap-open is charged on every gap step ("linear" gaps). *)
+Fixpoint score_linear_g (g : scorer) (a b : bytes) (al : list step) : outcome Z :=
+  match al with
+  | [] => Ok 0
+  | SMatch :: r =>
+    match a, b with
+    | x :: a', y :: b' =>
+      obind (g x y) (fun s => obind (score_linear_g g a' b' r) (fun t => Ok (s + t)))
+    | _, _ => Err
+    end
+  | SDel :: r =>
+    match a with
+    | x :: a' =>
+      obind (g x Gap) (fun s => obind (g Gap Gap) (fun o =>
+      obind (score_linear_g g a' b r) (fun t => Ok (s + o + t))))
+    | [] => Err
+    end
+  | SIns :: r =>
+    match b with
+    | y :: b' =>
+      obind (g Gap y) (fun s => obind (g Gap Gap) (fun o =>
+      obind (score_linear_g g a b' r) (fun t => Ok (s + o + t))))
+    | [] => Err
+    end
+  | SNone :: _ => Err
+  end.
+
+Definition score_linear (m : matrix) := score_linear_g (get m).
+
+(* Every pair the alignment of a with b can ask the matrix for is present:
+   a x b, a x Gap, Gap x b and the gap-open pair (Gap, Gap). *)
+Definition covers_g (g : scorer) (a b : bytes) : Prop :=
+  forall x y, In x (Gap :: a) -> In y (Gap :: b) -> exists z, g x y = Ok z.
+
+Definition covers (m : matrix) (a b : bytes) : Prop := covers_g (get m) a b.
+
+(* Per-character gap scores over a and b and the gap-open score are <= 0. *)
+Definition nonpos_gaps_g (g : scorer) (a b : bytes) : Prop :=
+  (forall x z, In x (Gap :: a) -> g x Gap = Ok z -> z <= 0) /\
+  (forall y z, In y (Gap :: b) -> g Gap y = Ok z -> z <= 0).
+
+Definition nonpos_gaps (m : matrix) (a b : bytes) : Prop := nonpos_gaps_g (get m) a b.
+
+Definition gap_open_g (g : scorer) : outcome Z := g Gap Gap.
+Definition gap_open (m : matrix) : outcome Z := get m Gap Gap.
+
+(* The scores the functions return. *)
+Definition global_score_g (g : scorer) (a b : bytes) : outcome Z :=
+  obind (global_g g a b) (fun r => Ok (snd r)).
+Definition local_score_g (g : scorer) (a b : bytes) : outcome Z :=
+  obind (local_g g a b) (fun r => Ok (snd r)).
+Definition global_score (m : matrix) := global_score_g (get m).
+Definition local_score (m : matrix) := local_score_g (get m).
+
+(* Textbook edit distance (unit costs), by recursion on the first characters. *)
+Definition min3 (x y z : nat) : nat := Nat.min x (Nat.min y z).
+
+Fixpoint edit_distance (a : bytes) : bytes -> nat :=
+  fix inner (b : bytes) : nat :=
+  match a, b with
+  | [], _ => length b
+  | _, [] => length a
+  | x :: a', y :: b' =>
+    min3 (S (edit_distance a' b))                        (* delete x *)
+         (S (inner b'))                                  (* insert y *)
+         (edit_distance a' b' + (if (x =? y)%N then 0 else 1))%nat   (* keep / substitute *)
+  end.
+
+(* The Levenshtein rule: 0 on the diagonal, -1 elsewhere (Gap included). *)
+Definition lev_rule : scorer := fun x y => Ok (if (x =? y)%N then 0 else -1).
+
+(* Symmetric scorer. *)
+Definition symmetric_g (g : scorer) : Prop := forall x y, g x y = g y x.
+
+(* What a valid answer (steps, ai, bi, score) of Local looks like: either no
+   alignment (nil, -1, -1, 0), or offsets inside the sequences, steps that stay
+   inside a and b from those offsets, and a positive score equal to the
+   documented score of the steps read from the offsets. *)
+Definition local_answer_valid (g : scorer) (a b : bytes) (r : list step * Z * Z * Z) : Prop :=
+  let '(al, ai, bi, s) := r in
+  (al = [] /\ ai = -1 /\ bi = -1 /\ s = 0) \/
+  (0 < s /\ 0 <= ai /\ 0 <= bi
+   /\ ai + Z.of_nat (fst (consumes al)) <= Z.of_nat (length a)
+   /\ bi + Z.of_nat (snd (consumes al)) <= Z.of_nat (length b)
+   /\ score_g g (skipn (Z.to_nat ai) a) (skipn (Z.to_nat bi) b) al = Ok s).
